@@ -1000,6 +1000,22 @@ func (p *simPeer) dropSession(kind string) bool {
 	if !up || c == nil {
 		return false
 	}
+	// a neighbour that ends the session itself is not owed the Maximum-Prefixes NOTIFICATION
+	// that has not reached it yet
+	p.mu.Lock()
+	if p.limitHit {
+		got := 0
+		for _, n := range p.notifs {
+			if n.Code == 6 && n.Sub == 1 {
+				got++
+			}
+		}
+		if got < p.limitTrips {
+			p.limitTrips--
+			p.w.probe("prefix_limit_notification_forgone")
+		}
+	}
+	p.mu.Unlock()
 	switch kind {
 	case "reset":
 		p.w.net.stats.fire("conn_reset")
